@@ -152,6 +152,13 @@ impl State {
                         }
                     }
                     Strategy::Pct { .. } => {
+                        // a thread that says it is polling sinks below everybody else (no starvation of low priorities)
+                        for i in 0..self.threads.len() {
+                            if self.threads[i].spinning && self.threads[i].yielded {
+                                self.next_low_prio -= 1;
+                                self.threads[i].prio = self.next_low_prio;
+                            }
+                        }
                         if self.change_points.contains(&self.steps) && cand.contains(&me) {
                             self.next_low_prio -= 1;
                             self.threads[me].prio = self.next_low_prio;
@@ -732,7 +739,7 @@ pub fn run(cfg: Config, body: impl FnOnce(&Ctx)) -> ! {
         progress: 0,
         strategy: cfg.strategy,
         change_points: vec![],
-        next_low_prio: 1000,
+        next_low_prio: 900_000,
         hang: None,
         max_steps: cfg.max_steps,
         poll_io: cfg.poll_io,
